@@ -411,6 +411,18 @@ func runC16(c *core.Ctx) int {
 		fmt.Println("REPLAY held")
 		return 0
 	}
+	// thorough tier: one long-lived `pint watch` process beside the one-shot cases (about nine minutes)
+	var watchOut *c16WatchOut
+	watchDone := make(chan struct{})
+	if !c.Quick() {
+		go func() {
+			o := c16Watch(c)
+			watchOut = &o
+			close(watchDone)
+		}()
+	} else {
+		close(watchDone)
+	}
 	n := c.N(400, 4000)
 	core.Parallel(n, 16, func(i int) {
 		cs := c16RandCase(c.Rand("c16", i))
@@ -444,6 +456,24 @@ func runC16(c *core.Ctx) int {
 			run.Sample(cs)
 		}
 	})
+	<-watchDone
+	if watchOut != nil {
+		run.Eval(1)
+		run.Count("watch_iterations_observed", int64(watchOut.iterations))
+		run.Count("watch_iterations_judged_after_staleness_bound", int64(watchOut.judgedAfter))
+		run.Count("watch_iterations_reporting_missing_before_appearance", int64(watchOut.reportedEarly))
+		run.Count("watch_instant_queries_for_late_metric", int64(watchOut.instantAsked))
+		if watchOut.inconc != "" {
+			run.Inconclusive("watch scenario: " + watchOut.inconc)
+		}
+		for _, v := range watchOut.viol {
+			run.Violate(v)
+		}
+		if watchOut.judgedAfter > 0 && watchOut.reportedEarly > 0 {
+			run.Nontrivial("watch:late-metric")
+		}
+		run.Assume("watch scenario (thorough tier): bounded progress instead of an unbounded 'eventually' - an iteration starting more than cache lifetime (5 min) + sweep period (2 min) + one interval + 30 s after the metric appeared must not report it missing; iterations before the bound are not judged; iteration start times are pint's own (H1 records)")
+	}
 	run.Assume("the served data is fixed relative to the start of each case: presence classes have their edges hours away from 'now' and samples extend 3 h past it, so the wall clock cannot flip a verdict during a run")
 	run.Assume("completeness is only demanded for expressions without or/unless fallbacks, vector(), absent() and ALERTS, where pint documents that every selector is checked")
 	return run.Finish("exploration",
